@@ -137,4 +137,35 @@ def expectedFrom (i : Nat) : Sig → List Argument
 /-- one argument per item, index = position -/
 def expected (sig : Sig) : List Argument := expectedFrom 0 sig
 
+
+/-! ### any spelling: free blanks between the words -/
+
+/-- the words with `gaps[i]` blanks after word `i` (one blank when the list runs out; after the last word any number) -/
+def joinGaps : List (List Nat) → List Nat → List Nat
+  | [], _ => []
+  | [w], gs => w ++ List.replicate (gs.headD 0) 32
+  | w :: w2 :: ws, gs => w ++ (List.replicate (gs.headD 1) 32 ++ joinGaps (w2 :: ws) gs.tail)
+
+/-- the signature spelled with `lead` blanks in front and the given blanks between its words: `*[opt] arg`, `[ a:str ]b`, … -/
+def renderSpaced (lead : Nat) (gaps : List Nat) (sig : Sig) : List Nat :=
+  List.replicate lead 32 ++ joinGaps (sigItems sig) gaps
+
+/-- a one-character bracket / modifier / `=` word: anything may follow it directly -/
+def isPunctWord (w : List Nat) : Bool :=
+  match w with
+  | [c] => !identChar c && !blank c
+  | _ => false
+
+/-- may directly follow a name specification: not a word character (it would extend the name), not `:` or `(` (they
+    would be read as its type / delimiter) -/
+def followOK : List Nat → Bool
+  | [] => true
+  | c :: _ => !identChar c && c != 58 && c != 40
+
+/-- blanks may be left out after a bracket/modifier/`=`, and before a word that cannot be glued to the previous one -/
+def gapsOK : List (List Nat) → List Nat → Bool
+  | [], _ => true
+  | [_], _ => true
+  | w :: w2 :: ws, gs => (decide (gs.headD 1 > 0) || isPunctWord w || followOK w2) && gapsOK (w2 :: ws) gs.tail
+
 end PlasVerif.Spec.Signature
